@@ -269,11 +269,20 @@ def _check_kinds(case, rec, tmp):
             fails.append(Failure("second_iteration_differs:%s" % d2[0], "%s\n---\n%s" % (text2, p3.to_string())))
     except Exception as exc:
         fails.append(Failure("second_reload_raises:%s" % type(exc).__name__, repr(exc)))
+    # to_file writes a command file that loads to the same program (its bytes need not equal to_string())
     path = os.path.join(tmp, "out.mpt")
-    p1.to_file(path)
-    with open(path, encoding="utf-8") as f:
-        if f.read() != text:
-            fails.append(Failure("to_file_differs", "file content differs from to_string()"))
+    try:
+        with open(path, "w", encoding="utf-8") as fh:
+            p1.to_file(fh)
+        from mpilot.program import Program
+
+        with open(path, encoding="utf-8") as fh:
+            pf = Program.from_source(fh.read(), libraries=LIBS, working_dir=tmp)
+        df = compare_programs(p1, pf)
+        if df:
+            fails.append(Failure("to_file_differs:%s" % df[0], "the file written by to_file() loads to a different program: %r" % (df,)))
+    except Exception as exc:
+        fails.append(Failure("to_file_raises:%s" % type(exc).__name__, repr(exc)))
     # identical results when run
     try:
         p1.run()
